@@ -6,7 +6,7 @@
     (Sni/RpcCorr.v). *)
 From Coq Require Import List NArith ZArith Bool String Permutation.
 From Verif Require Import Lib.Bytes Sni.Wire Sni.WireProofs Sni.WireGen Gen.WireSchema.
-From Verif Require Import Sni.RpcCtx Sni.RpcCtxProofs.
+From Verif Require Import Sni.RpcCtx Sni.RpcCtxProofs Sni.RpcShut.
 From Verif Require Import Sni.SchedSkel Sni.Rpc Sni.RpcProofs Sni.RpcGen Sni.RpcFine Gen.TransportSkel.
 Import ListNotations.
 Local Open Scope N_scope.
@@ -247,6 +247,42 @@ Theorem C03_giveup_stale_id_refuted :
     forall vs, status (x_st (xrun_from gen_alloc_max two64 GuFetchField s tr)) 10 <> Some (ROk vs).
 Proof. exact fetch_field_refuted. Qed.
 Print Assumptions C03_giveup_stale_id_refuted.
+
+(** ** A call taken off the queue after the shutdown request (Sni/RpcShut.v) *)
+
+(** serve completes it with errAlreadyShutdown, exactly then, and leaves the
+    table of pending calls alone: the call is not recorded (so nothing can
+    complete it a second time), nobody else's entry changes, the transport
+    keeps running. *)
+Theorem C03_rejected_call_local : forall s c ok,
+  running s = true -> shut s = true -> completed (pc_caller c) s = false ->
+  let s' := step s (ECall c ok) in
+  pending s' = pending s /\ running s' = true /\ shut s' = true /\ panicked s' = panicked s /\
+  log s' = (log s ++ [(pc_caller c, RErr CShutdown)])%list.
+Proof. exact (rejected_call_local gen_alloc_max two64). Qed.
+Print Assumptions C03_rejected_call_local.
+
+(** In the source that is a matter of control flow: on the path serve takes
+    with shutdownCalled set -- an unlabelled break resolved to the construct
+    it leaves -- the call is completed once and neither tr.send nor the
+    pending table occurs. *)
+Theorem C03_rejected_call_not_sent : rejected_path_ok gen_rejected_call_path = true.
+Proof. exact gen_rejected_call_not_sent. Qed.
+Print Assumptions C03_rejected_call_not_sent.
+
+(** The seeded change C03-g, kept as a counter-model: the break leaves only
+    an inner switch, the rejected call is sent and recorded.  A call that
+    reached the queue behind the shutdown request is completed twice when
+    the transport winds down (a second close of its done channel: the process
+    dies); the source as it is completes every call of that history once. *)
+Theorem C03_rejected_call_fallthrough_refuted :
+  rejected_path_ok seeded_rejected_path = false /\
+  wf_trace behind_history /\
+  panicked (run_ft gen_alloc_max two64 behind_history) = true /\
+  panicked (run behind_history) = false /\
+  log (run behind_history) = [(11, RErr CShutdown); (20, RErr CExit); (10, RErr CExit)].
+Proof. exact fallthrough_refuted. Qed.
+Print Assumptions C03_rejected_call_fallthrough_refuted.
 
 (** The tie to the source: the functions the model was written against have
     the frozen statement skeletons, [pending] is owned by [serve], the type
